@@ -23,6 +23,7 @@ import (
 	"istio.io/istio/pilot/pkg/serviceregistry/provider"
 	"istio.io/istio/pkg/config/constants"
 	dnsProto "istio.io/istio/pkg/dns/proto"
+	"istio.io/istio/pkg/maps"
 	netutil "istio.io/istio/pkg/util/net"
 	"istio.io/istio/pkg/util/sets"
 )
@@ -71,7 +72,8 @@ func BuildNameTable(cfg Config) *dnsProto.NameTable {
 					// Iterate all ports to collect endpoints from every EndpointSlice.
 					// Dedup by address since pod IPs are unique (IPAM guarantee).
 					seen := sets.New[string]()
-					for _, endpoints := range cfg.Push.ServiceEndpoints(svc.Key()) {
+					// Visit the ports in sorted order: the order of the addresses must not depend on map iteration.
+					for _, endpoints := range maps.SeqStable(cfg.Push.ServiceEndpoints(svc.Key())) {
 						for _, instance := range endpoints {
 							isValidInstance := true
 							for _, addr := range instance.Addresses {
